@@ -309,7 +309,48 @@ func (g *Gen) paintLine(w int, promptW int) string {
 	}
 }
 
+type c04X struct {
+	IdleW int `json:"idle_w,omitempty"` // the terminal gets this width between the first and the second Readline call
+}
+
+// genC04TwoCalls: a line accepted, the terminal resized while the application is busy elsewhere (no call
+// active, nobody listening for the signal), then a second call on the same Shell that has to lay its buffer
+// out for the width the terminal has now.
+func genC04TwoCalls(g *Gen) *wire.Scenario {
+	sc := &wire.Scenario{Prop: "C04", Family: "paint-two-calls"}
+	env := wire.Env{Mode: Pick(g, []string{"emacs", "vi"}), Prompt: Pick(g, []string{"> ", "$ ", "prompt> "}), W: Pick(g, []int{30, 40, 80, 100}), H: g.Range(10, 30), NoDefaultHistory: true}
+	env.StartRow = g.N(env.H / 2)
+	env.Inputrc = []string{"set history-autosuggest off", "set autocomplete off"}
+	sc.Env = env
+	for i := 0; i < g.Range(1, 5); i++ {
+		sc.Script = append(sc.Script, tok(string("abc d"[g.N(5)]), "self-insert"))
+	}
+	sc.Script = append(sc.Script, tok("\r", "accept-line"))
+	w2 := Pick(g, []int{20, 25, 60, 120, 132})
+	if w2 == env.W {
+		w2 += 7
+	}
+	lo := min(env.W, w2)
+	for j := 0; j < lo+g.Range(-3, 12); j++ {
+		sc.Script = append(sc.Script, tok(string("0123456789"[j%10]), "self-insert"))
+	}
+	if env.Mode == "emacs" {
+		for i := 0; i < g.N(4); i++ {
+			cmd := Pick(g, []string{"backward-char", "beginning-of-line", "end-of-line", "backward-delete-char"})
+			if seq := g.Cat.ShortSeqFor("emacs", cmd); seq != "" {
+				sc.Script = append(sc.Script, tok(seq, cmd))
+			}
+		}
+	}
+	sc.X = mustJSON(c04X{IdleW: w2})
+	sc.Plan = wire.Plan{Policy: "canonical", Class: "S0"}
+	return sc
+}
+
 func genC04(g *Gen, tier string, idx int) *wire.Scenario {
+	if idx%25 == 11 {
+		return genC04TwoCalls(g)
+	}
 	mode := Pick(g, []string{"emacs", "emacs", "vi"})
 	sc := &wire.Scenario{Prop: "C04", Family: "paint"}
 	env := wire.Env{Mode: mode}
@@ -528,7 +569,19 @@ func promptUpper(prompt string) []string {
 
 func execC04(x *Ctx, sc *wire.Scenario) *wire.Result {
 	res := okResult(sc)
-	out := runSession(x, sc, sc.Plan, sim.Hooks{}, true)
+	hooks := sim.Hooks{}
+	var xx c04X
+	if len(sc.X) > 0 {
+		jsonInto(sc.X, &xx)
+	}
+	if xx.IdleW > 0 {
+		hooks.Body = func(s *sim.Session, sh *readlineShell) {
+			s.Readline(sh)
+			s.ResizeIdle(xx.IdleW, sc.Env.H)
+			s.Readline(sh)
+		}
+	}
+	out := runSession(x, sc, sc.Plan, hooks, true)
 	absorb(res, out)
 	if out.End == "PANIC" || out.End == "DEADLOCK" || out.End == "LIVELOCK" {
 		res.Counters["skipped:crash"]++
